@@ -15,6 +15,19 @@ def main():
         cfg = core.ProgressConfig(total=len(outcomes), units="tasks", title="case", show=show)
         with core.ParallelWorkManager(workers, cfg) as pwm:
             for i, o in enumerate(outcomes):
+                if o == "killidle":
+                    # every task submitted so far has finished; one idle worker is killed from outside (OOM killer, operator);
+                    # the producer then goes on submitting
+                    import os
+                    import signal
+                    import time
+                    import concurrent.futures as cf
+                    cf.wait(list(pwm.futures))
+                    procs = list(getattr(pwm.executor, "_processes", {}).values())
+                    if procs:
+                        os.kill(procs[0].pid, signal.SIGKILL)
+                        time.sleep(0.5)
+                    continue
                 kind = o if o in ("ok", "die", "dielock", "sysexit", "kbint") else "raise"
                 pwm.submit(c14_tasks.task, kind, o if kind == "raise" else i, marker, 0.02)
             if body:
@@ -22,6 +35,7 @@ def main():
     except BaseException as e:  # noqa: BLE001
         res["raised"] = type(e).__name__
         res["arg"] = e.args[0] if e.args and isinstance(e.args[0], int) else None
+    res["expected_done"] = [i for i, o in enumerate(outcomes) if o == "ok"]
     res["done"] = sorted(int(p.name.split("_")[1]) for p in pathlib.Path(marker).iterdir())
     print("RESULT " + json.dumps(res), flush=True)
 
